@@ -8,8 +8,15 @@ adversarial network that may drop, duplicate, delay and reorder whole multipart 
 
 Every endpoint (controller or executor) owns one Listener and one ReliableSender; the address of
 endpoint `a` is the number `a`. State of Python dicts/sets = functions `Nat → …`.
+Two levels of "delivered": `delivered` = what `Listener._recv_one` accepted (acknowledged, marked in
+`acked`, appended to the local `messages` list of `recv_messages`); `handled` = what the loop body of
+the endpoint actually took out of the returned batch (`Executor.recv_loop`) resp. what
+`Bridge.recv_events` returned to the controller. Between the two: `batch` (returned by
+`recv_messages`, not yet taken by the `for`), `staged` (the local `events` of `recv_events`); an
+abandoned iteration (`break`, handler exception, `shutdown_reason`, an exception out of
+`recv_messages`) moves both to the ghost list `lost`.
 Ghost fields (not present in the code, used by the theorems only): `raised`, `errors`, `log`,
-`sends`, `hosts0`, and the `syn` tag of a `Delivery`.
+`sends`, `hosts0`, `lost`, `aborts`, `locals`, and the `syn` tag of a `Delivery`.
 NO Mathlib.
 -/
 import EkwVerif.Model.Frames
@@ -31,12 +38,20 @@ structure Rec where
   remaining : Int
 deriving DecidableEq, Repr
 
-/-- One message handed to the application by `recv_messages`. `syn` is a ghost tag: the Syn the
-message arrived under (`none` for local, un-acknowledged `callback` traffic). -/
+/-- One message returned by `_recv_one`. `syn` is a ghost tag: the Syn the message arrived under
+(`none` for local, un-acknowledged `callback` traffic). -/
 structure Delivery where
   syn : Option SynId
   body : Parsed
 deriving DecidableEq, Repr
+
+def Delivery.isAck (d : Delivery) : Bool :=
+  match d.body with
+  | .msg (.ack _) => true
+  | _ => false
+
+/-- the part of a batch that is owed to the application (Acks are consumed by the loop itself) -/
+def payloads (l : List Delivery) : List Delivery := l.filter (fun d => !d.isAck)
 
 /-- A multipart message on the wire. -/
 structure Packet where
@@ -55,14 +70,21 @@ structure Endpoint where
   inbox : List (List Frame) := []                 -- zmq receive queue (FIFO)
   -- clock seen by this endpoint
   now : Nat := 0
-  -- application side: everything `recv_messages` returned that is not an `Ack`
+  -- Listener side: everything `_recv_one` returned that is not an `Ack` (acknowledged + marked)
   delivered : List Delivery := []
+  -- application side
+  batch : List Delivery := []                     -- `messages` of recv_messages / rest of the `for`
+  staged : List Delivery := []                    -- `events` of Bridge.recv_events, not yet returned
+  handled : List Delivery := []                   -- taken by the loop body / returned to the controller
   -- ghosts
   raised : Bool := false                          -- some `maybe_retry` call raised
   errors : Nat := 0                               -- `_recv_one` raised that many times
   log : Nat → Option (Nat × Nat) := fun _ => none -- idx ↦ (host, msg) accepted by `send`
   sends : Nat → Nat := fun _ => 0                 -- idx ↦ number of transmissions
   hosts0 : Nat → Option Nat := fun _ => none      -- `hosts` at construction
+  lost : List Delivery := []                      -- accepted + acknowledged, then discarded unhandled
+  aborts : Nat := 0                               -- abandoned loop iterations
+  locals : List Nat := []                         -- bodies of the local `callback` messages queued here
 
 structure Sys where
   ep : Nat → Endpoint := fun _ => {}
@@ -79,6 +101,7 @@ structure LoopInfo where
   phase : Phase
   feedsAck : Bool      -- an `isinstance(m, Ack)` branch calls `self.sender.ack(m.idx)`
   callsRetry : Bool    -- every iteration calls `self.sender.maybe_retry()`
+  timeoutMs : Option Nat := none  -- `timeout_ms` of the loop's `recv_messages` call; none = blocks for ever
 deriving DecidableEq, Repr
 
 inductive Op where
@@ -87,7 +110,13 @@ inductive Op where
   | drop (k : Nat)              -- network: lose net[k]
   | deliver (k : Nat)           -- network: net[k] arrives at its destination's queue
   | dup (k : Nat)               -- network: net[k] arrives AND stays in the network
-  | recv (a : Nat) (feeds : Bool) -- one `_recv_one` at a + dispatch (Ack → sender.ack iff feeds)
+  | collect (a : Nat)           -- one `_recv_one` at a inside `recv_messages` (result joins `batch`)
+  | process (a : Nat) (feeds stage : Bool)
+                                -- the loop body takes the next message of the batch: an Ack goes to
+                                -- `sender.ack` iff `feeds`; anything else is handled (or staged: an
+                                -- Event inside `Bridge.recv_events`)
+  | commit (a : Nat)            -- `Bridge.recv_events` returns its `events`
+  | abort (a : Nat)             -- the iteration is abandoned (break / exception / shutdown_reason)
   | retry (a : Nat)             -- `ReliableSender.maybe_retry()` at a
   | tick (a dt : Nat)           -- a's clock advances
   | popHost (a h : Nat)         -- `sender.hosts.pop(h)` (Bridge, on ExecutorExit/Failure)
@@ -116,7 +145,7 @@ def sendFails (s : Sys) (a h : Nat) : Bool := ((s.ep a).hosts h).isNone
 
 def localMsg (s : Sys) (a m : Nat) : Sys :=
   let e := s.ep a
-  setEp s a { e with inbox := e.inbox ++ [[.msg (.app m)]] }
+  setEp s a { e with inbox := e.inbox ++ [[.msg (.app m)]], locals := e.locals ++ [m] }
 
 def drop (s : Sys) (k : Nat) : Sys := { s with net := s.net.eraseIdx k }
 
@@ -137,15 +166,15 @@ def dup (s : Sys) (k : Nat) : Sys :=
 /-- `ReliableSender.ack` -/
 def senderAck (e : Endpoint) (i : Nat) : Endpoint := { e with inflight := upd e.inflight i none }
 
-/-- Loop dispatch of one received message. -/
-def dispatch (e : Endpoint) (feeds : Bool) (syn : Option SynId) (p : Parsed) : Endpoint :=
-  match p with
-  | .msg (.ack i) => if feeds then senderAck e i else e
-  | _ => { e with delivered := e.delivered ++ [⟨syn, p⟩] }
+/-- the iteration is abandoned: whatever was accepted but not yet handled is gone -/
+def abortEp (e : Endpoint) : Endpoint :=
+  { e with lost := e.lost ++ e.staged ++ payloads e.batch, batch := [], staged := [],
+           aborts := e.aborts + 1 }
 
-/-- One `Listener._recv_one` on the head of the queue (nothing if the queue is empty), followed
-by the loop's dispatch of the returned message. -/
-def recv (s : Sys) (a : Nat) (feeds : Bool) : Sys :=
+/-- One `Listener._recv_one` on the head of the queue (nothing if the queue is empty) inside
+`recv_messages`: the returned message joins the local list `messages` (`batch`). A `raise`
+propagates out of `recv_messages` and out of the loop iteration: the list is lost. -/
+def collect (s : Sys) (a : Nat) : Sys :=
   let e := s.ep a
   match e.inbox with
   | [] => s
@@ -159,10 +188,33 @@ def recv (s : Sys) (a : Nat) (feeds : Bool) : Sys :=
       | none => e.acked
     let e1 := { e with inbox := rest, acked := acked' }
     let e2 := match out.res with
-      | .error _ => { e1 with errors := e1.errors + 1 }
+      | .error _ => abortEp { e1 with errors := e1.errors + 1 }
       | .ok none => e1
-      | .ok (some p) => dispatch e1 feeds out.mark p
+      | .ok (some p) =>
+        let d : Delivery := ⟨out.mark, p⟩
+        { e1 with batch := e1.batch ++ [d]
+                  delivered := if d.isAck then e1.delivered else e1.delivered ++ [d] }
     { setEp s a e2 with net := net' }
+
+/-- The loop body takes the next message of the batch. -/
+def processEp (e : Endpoint) (feeds stage : Bool) : Endpoint :=
+  match e.batch with
+  | [] => e
+  | d :: rest =>
+    match d.body with
+    | .msg (.ack i) => if feeds then { senderAck e i with batch := rest } else { e with batch := rest }
+    | _ =>
+      if stage then { e with batch := rest, staged := e.staged ++ [d] }
+      else { e with batch := rest, handled := e.handled ++ [d] }
+
+def process (s : Sys) (a : Nat) (feeds stage : Bool) : Sys := setEp s a (processEp (s.ep a) feeds stage)
+
+/-- `Bridge.recv_events` returns its events to the controller. -/
+def commit (s : Sys) (a : Nat) : Sys :=
+  let e := s.ep a
+  setEp s a { e with handled := e.handled ++ e.staged, staged := [] }
+
+def abort (s : Sys) (a : Nat) : Sys := setEp s a (abortEp (s.ep a))
 
 /-- Body of the `for idx, record in self.inflight.items()` loop of `maybe_retry` for one idx.
 The Bool says: this iteration raised. -/
@@ -206,7 +258,10 @@ def step (s : Sys) : Op → Sys
   | .drop k => drop s k
   | .deliver k => deliver s k
   | .dup k => dup s k
-  | .recv a f => recv s a f
+  | .collect a => collect s a
+  | .process a f st => process s a f st
+  | .commit a => commit s a
+  | .abort a => abort s a
   | .retry a => retry s a
   | .tick a dt => tick s a dt
   | .popHost a h => popHost s a h
@@ -228,34 +283,53 @@ def mkEndpoint (grace : Nat) (hosts : Nat → Option Nat) : Endpoint :=
 def init (maxRetries : Nat) (cfg : Nat → Nat × (Nat → Option Nat)) : Sys :=
   { ep := fun a => mkEndpoint (cfg a).1 (cfg a).2, net := [], maxRetries := maxRetries }
 
-/-- the next `_recv_one` would return None because the Syn was seen before -/
-def headIsDup (s : Sys) (a : Nat) : Bool :=
+/-- the next `_recv_one` ends `recv_messages`: it returns None (a Syn seen before) or raises -/
+def headStops (s : Sys) (a : Nat) : Bool :=
   match (s.ep a).inbox with
-  | [] => false
+  | [] => true
   | fs :: _ =>
     match (recvOne (s.ep a).acked fs).res with
-    | .ok none => true
-    | _ => false
+    | .ok (some _) => false
+    | _ => true
 
 /-- `Listener.recv_messages(timeout)`: `_recv_one` until the queue is empty — or until one call
 returns None, which is also what a duplicate Syn yields (the rest of the queue then waits for the
-next call). The loop then dispatches the returned messages in order; `upto` = how many of them it
-dispatches before leaving the `for` (Executor.recv_loop `break`s at ExecutorShutdown: the rest of
-the batch was returned by `recv_messages` but its Acks are not fed). `fuel` = queue length. -/
-def drain (s : Sys) (a : Nat) (feeds : Bool) (upto : Nat) : Nat → Sys
+next call), or raises. `fuel` = queue length. -/
+def recvMessages (s : Sys) (a : Nat) : Nat → Sys
   | 0 => s
   | fuel + 1 =>
     match (s.ep a).inbox with
     | [] => s
     | _ :: _ =>
-      let stop := headIsDup s a
-      let s' := recv s a (feeds && decide (0 < upto))
-      if stop then s' else drain s' a feeds (upto - 1) fuel
+      let stop := headStops s a
+      let s' := collect s a
+      if stop then s' else recvMessages s' a fuel
 
-/-- One iteration of an endpoint loop, as a list of small steps: drain the queue
-(`recv_messages`), the application's own sends, then `maybe_retry` iff the loop calls it. -/
-def iteration (a : Nat) (queued : Nat) (l : LoopInfo) (sends : List (Nat × Nat)) : List Op :=
-  List.replicate queued (Op.recv a l.feedsAck) ++ sends.map (fun hm => Op.send a hm.1 hm.2)
-    ++ (if l.callsRetry then [Op.retry a] else [])
+/-- One iteration of an endpoint loop, as a list of small steps: `body` (the `recv_messages` call,
+the dispatch of the batch, the application's own sends, commit or abort — anything but
+`maybe_retry`), then `maybe_retry` iff the loop calls it. -/
+def iteration (a : Nat) (l : LoopInfo) (body : List Op) : List Op :=
+  body ++ (if l.callsRetry then [Op.retry a] else [])
+
+/-! ### a frame-forging adversary (only used by the theorems about malformed sequences) -/
+
+/-- histories in which, besides everything in `Op`, arbitrary frame lists may be put into any
+receive queue -/
+inductive OpF where
+  | op (o : Op)
+  | inject (a : Nat) (fs : List Frame)
+deriving DecidableEq, Repr
+
+def inject (s : Sys) (a : Nat) (fs : List Frame) : Sys :=
+  let e := s.ep a
+  setEp s a { e with inbox := e.inbox ++ [fs] }
+
+def stepF (s : Sys) : OpF → Sys
+  | .op o => step s o
+  | .inject a fs => inject s a fs
+
+def runF (s : Sys) : List OpF → Sys
+  | [] => s
+  | op :: ops => runF (stepF s op) ops
 
 end EkwVerif.Ack
